@@ -265,11 +265,13 @@ def rule_w2(chk: Check):
         # key = mark, method_name, args|()
         key_assign = [s for s in fn.body if isinstance(s, ast.Assign) and norm_stmt(s.targets[0]) == "key"]
         chk.count("W2-cache-hit")
-        ok = len(key_assign) == 1 and isinstance(key_assign[0].value, ast.Tuple) and \
-            [norm_stmt(e) for e in key_assign[0].value.elts][:2] == ["mark", "method_name"] and \
+        elts = [norm_stmt(e) for e in key_assign[0].value.elts] if len(key_assign) == 1 and isinstance(key_assign[0].value, ast.Tuple) else []
+        ok = sorted(elts) in (["args", "mark", "method_name"], ["()", "mark", "method_name"]) and \
             any(isinstance(s, ast.Assign) and norm_stmt(s) == "mark = self._mark()" for s in fn.body)
         chk.require(ok, "W2-cache-hit", f"{inner}:key", where,
-                    "the cache key must be (position mark, rule name, args) with mark = self._mark()")
+                    f"the cache key must be exactly (position mark, rule name, args) with mark = self._mark(); found {elts}: a key that "
+                    f"also depends on other parser state (recursion depth, flags) misses for the same rule at the same position, and the "
+                    f"whole sub-parse is repeated")
         # the fast path: first `if key in self._cache ...:` has no loop, no call to method, and returns
         fast = next((s for s in fn.body if isinstance(s, ast.If) and "key in self._cache" in norm_stmt(s.test)), None)
         chk.count("W2-cache-hit")
